@@ -215,9 +215,13 @@ def run_all(specs, seeds):
     args = list(zip(specs, seeds))
     if len(args) < 8 or K.JOBS < 2:
         return [run_impl(*a) for a in args]
-    import multiprocessing as mp
-    with mp.get_context("fork").Pool(min(K.JOBS, 8)) as pool:
-        return pool.map(_run_one, args, chunksize=4)
+    # forked children, a few in flight: a worker pool would hang when GLPK aborts a worker (bflib/sgf.c)
+    outs = []
+    for kind, val in K.map_isolated(_run_one, args, chunk=4):
+        outs.append(val if kind == "ok" else
+                    {"skip": "process aborted by the solver library or timed out: %s" % val, "obs0": None,
+                     "dict": {"err": "aborted"}, "loads": [], "trips": [], "aborted": True})
+    return outs
 
 
 def same_opt(a, b):
